@@ -751,7 +751,12 @@ def run_race(res, rounds, tag="C14", timeout=1500, pattern=None, only=None):
     for r in races[:5]:
         res.add(Problem("monitor", "race detector: DATA RACE in a workload over the concurrent-safe API: " + " | ".join(l.strip() for l in r.split("\n")[:8])[:700],
                         {"report": r[:3000]}, key=r[:300]))
-    if p.returncode != 0 and not races:
+    # value monitors inside the workloads print `MONFAIL Cxx message`; a check reports those of its own property
+    monfails = re.findall(r"MONFAIL (C\d+) (.*)", p.stdout)
+    for ptag, msg in monfails:
+        if ptag == tag:
+            res.add(Problem("monitor", "concurrent workload: " + msg[:600], None, key=msg[:200]))
+    if p.returncode != 0 and not races and not monfails:
         res.add(Problem("monitor" if "panic" in p.stdout else "correspondence", "race workload failed: " + p.stdout[-600:], None, key="race-workload-failed"))
     return {"race_rounds": rounds, "races_reported": len(races), "ok": p.returncode == 0}
 
